@@ -5,12 +5,13 @@ cd "$(dirname "$0")"
 export CARGO_NET_OFFLINE=true
 mkdir -p work evidence replays
 cd harness
+# the nodbg profile (no debug assertions, no overflow checks) lives in its own target directory and is built concurrently
+( cargo build --profile nodbg --target-dir target/p_nodbg --bin c02 --bin c03 --bin c04 --bin c05 --bin c06 --bin c07 --bin c08 --bin c09 --bin c10 --bin c11 --bin c13 --bin c14 --bin c15 --bin c16 --bin c17 --bin c19 2>&1 | tail -1
+  cargo build --profile nodbg --target-dir target/p_nodbg --bin c14 --features faster-hex 2>&1 | tail -1 ) &
 cargo build --release --bins 2>&1 | tail -2
 cargo build --release --bin c14 --features faster-hex 2>&1 | tail -1
-cargo build --profile nodbg --bin c02 --bin c03 --bin c04 --bin c05 --bin c06 --bin c07 --bin c09 --bin c10 2>&1 | tail -1
 cargo build --profile stk --bin c15 2>&1 | tail -1
-cargo build --profile nodbg --bin c14 2>&1 | tail -1
-cargo build --profile nodbg --bin c14 --features faster-hex 2>&1 | tail -1
+wait
 cd rlibdep
 cargo build --target-dir ../target/rlibdep 2>&1 | tail -1
 # warm the Miri build used by the quick tier of C09 (interpreter sysroot + harness under Miri)
